@@ -282,6 +282,62 @@ fn do_new(a: &[&str]) -> String {
     })
 }
 
+/// `side race <iters> <thread> <thread> …`, thread = `op/arg/arg,op/arg,…`: every thread repeats its list of atomic
+/// accessor calls `iters` times, all threads at once (spin start line). Answer: per thread the results of its calls in
+/// order (`;`-separated), then the window. With one owner per field the answers are those of any sequential order.
+fn race(st: &St, a: &[&str]) -> String {
+    use std::sync::atomic::AtomicUsize;
+    use std::sync::{Arc, Barrier};
+    if a.len() < 2 || a.len() > 17 {
+        return "bad-op".to_string();
+    }
+    let iters = unum(a[0]);
+    const OK: [&str; 9] = ["load_atomic", "store_atomic", "set_zero_atomic", "cmpxchg", "fetch_add", "fetch_sub", "fetch_and", "fetch_or", "fetch_update"];
+    let mut progs: Vec<Vec<Vec<String>>> = vec![];
+    for t in &a[1..] {
+        let mut p = vec![];
+        for c in t.split(',') {
+            let f: Vec<String> = c.split('/').map(|x| x.to_string()).collect();
+            if f.len() < 2 || !OK.contains(&f[0].as_str()) {
+                return "bad-op".to_string();
+            }
+            p.push(f);
+        }
+        progs.push(p);
+    }
+    let n = progs.len();
+    let s1 = st.s1;
+    let barrier = Arc::new(Barrier::new(n));
+    let go = Arc::new(AtomicUsize::new(0));
+    let handles: Vec<_> = progs
+        .into_iter()
+        .map(|p| {
+            let barrier = barrier.clone();
+            let go = go.clone();
+            std::thread::spawn(move || {
+                let mut out: Vec<String> = Vec::with_capacity(iters * p.len());
+                barrier.wait();
+                go.fetch_add(1, Ordering::SeqCst);
+                while go.load(Ordering::SeqCst) < n {
+                    std::hint::spin_loop();
+                }
+                for _ in 0..iters {
+                    for c in &p {
+                        let args: Vec<&str> = c[1..].iter().map(|x| x.as_str()).collect();
+                        out.push(dispatch(&s1, c[0].as_str(), &args));
+                    }
+                }
+                out.join(";")
+            })
+        })
+        .collect();
+    let mut rs = vec![];
+    for h in handles {
+        rs.push(h.join().unwrap_or_else(|_| "panic".to_string()));
+    }
+    format!("race {} {}", rs.join(" "), hex(st.w1))
+}
+
 const MUTATING: [&str; 14] = [
     "store", "store_atomic", "set_zero", "set_zero_atomic", "raw", "cmpxchg", "fetch_add", "fetch_sub", "fetch_and",
     "fetch_or", "fetch_update", "bzero", "bset", "bcopy",
@@ -322,6 +378,9 @@ pub fn run(args: &[&str]) -> String {
             return s;
         }
         _ => {}
+    }
+    if op == "race" {
+        return race(&st, &args[1..]);
     }
     let a = &args[1..];
     let r = guarded(|| match op {
